@@ -199,6 +199,64 @@ func runC12(c *Ctx) {
 		}
 		check(tc{cls: fmt.Sprintf("auth-sweep/ivlen=%d", ivl), key: r.Bytes(16), iv: r.Bytes(ivl), a: r.Bytes(1 + r.Intn(24)), p: r.Bytes(1 + r.Intn(40)), sweepBits: true})
 	})
+	// (7) buffer-reuse histories (serial): the same key / IV / A / P buffers are passed to consecutive calls while their
+	// contents are edited in place or refilled in between; every call must answer for the current contents
+	{
+		rh := c.Rng("reuse")
+		for h := 0; h < c.Q(80, 4000); h++ {
+			key, iv, a, p := rh.Bytes(16), rh.Bytes(rh.Pick(12, 12, 16, 8)), rh.Bytes(rh.Intn(40)), rh.Bytes(1+rh.Intn(80))
+			var trace []string
+			for st := 0; st < 2+rh.Intn(5); st++ {
+				switch rh.Intn(6) {
+				case 0:
+					key[rh.Intn(16)] ^= 1 << uint(rh.Intn(8))
+					trace = append(trace, "key-edited-in-place")
+				case 1:
+					rh.Fill(key)
+					trace = append(trace, "key-refilled")
+				case 2:
+					iv[rh.Intn(len(iv))] ^= 0x40
+					trace = append(trace, "iv-edited-in-place")
+				case 3:
+					if len(a) > 0 {
+						a[rh.Intn(len(a))] ^= 0x02
+						trace = append(trace, "aad-edited-in-place")
+					}
+				case 4:
+					p[rh.Intn(len(p))] ^= 0x08
+					trace = append(trace, "plaintext-edited-in-place")
+				default:
+					trace = append(trace, "unchanged")
+				}
+				wantC, wantT, err := ref.SM4GCMSeal(key, iv, p, a)
+				if err != nil {
+					continue
+				}
+				var C, T, P2, T2 []byte
+				w := map[string]interface{}{"history": append([]string{}, trace...), "key": mon.Hex(key), "iv": mon.Hex(iv), "aad": mon.Hex(a), "plaintext": mon.Hex(p)}
+				if pi := mon.Guard(func() {
+					if st%2 == 0 {
+						C, T, _ = sm4.Sm4GCM(key, iv, p, a, true)
+					} else {
+						C, T = sm4.GCMEncrypt(key, iv, p, a)
+					}
+					P2, T2 = sm4.GCMDecrypt(key, iv, wantC, a)
+				}); pi != nil {
+					rep.Violation("C12/history/panic/"+pi.Func, pi.Value, w)
+					break
+				}
+				if !bytes.Equal(C, wantC) || !bytes.Equal(T, wantT) {
+					rep.Violation("C12/history/encrypt-does-not-follow-current-buffer-contents", fmt.Sprintf("after %v: C/T differ from standard GCM for the bytes now in the buffers", trace), w)
+					break
+				}
+				if !bytes.Equal(P2, p) || !bytes.Equal(T2, wantT) {
+					rep.Violation("C12/history/decrypt-does-not-follow-current-buffer-contents", fmt.Sprintf("after %v", trace), w)
+					break
+				}
+			}
+			rep.Eval(fmt.Sprintf("history/buffer-reuse/ivlen=%d/steps=%d", len(iv), len(trace)))
+		}
+	}
 	rep.Sample(map[string]interface{}{"kind": "tuple", "ivlen": 12, "A_len": 5, "P_len": 33, "oracle": "C,T == cipher.NewGCM(refSM4).Seal; GCMDecrypt(refC) == P and tag == refT; every single-bit change of K/IV/A/C changes the recomputed tag"})
 }
 
